@@ -1,4 +1,5 @@
 import Jose.Jwe
+import Jose.Exc
 import Jose.Driver.Prims
 import Jose.Driver.IO
 import Jose.Driver.Entity
@@ -73,6 +74,10 @@ def jweOps : List (String × (Json → Json)) := [
             | _ => ptResult none)
          else ptResult none)
     | _, _ => ptResult none),
+  ("jwk.exc", fun a =>
+    match a.get? "prv", a.get? "pub" with
+    | some prv, some pub => optJson (Exc.exc realPrims prv pub)
+    | _, _ => optJson none),
   ("jwk.gen", fun a =>
     match a.get? "jwk" with
     | some jwk => okWith "jwk" (Gen.gen realPrims jwk (tapeOf a))
